@@ -61,6 +61,9 @@ var behaviours = []behaviour{
 	{Name: "Error", Fails: true, Do: func(t *f1testing.T) { t.Error(errSentinel) }},
 	{Name: "Fatal", Fails: true, Do: func(t *f1testing.T) { t.Fatal(errSentinel) }},
 	{Name: "Fatalf", Fails: true, Do: func(t *f1testing.T) { t.Fatalf("fatal %s", "x") }},
+	{Name: "Error(nil)", Fails: true, Do: func(t *f1testing.T) { var err error; t.Error(err) }},
+	{Name: "Fatal(nil)", Fails: true, Do: func(t *f1testing.T) { var err error; t.Fatal(err); panic("Fatal returned") }},
+	{Name: "Errorf(no verbs)", Fails: true, Do: func(t *f1testing.T) { t.Errorf("") }},
 	{Name: "assert.True(false)", Fails: true, Do: func(t *f1testing.T) { assert.True(t, false) }},
 	{Name: "Require().Equal-fails", Fails: true, Do: func(t *f1testing.T) { t.Require().Equal(1, 2) }},
 	{Name: "Fail-then-return", Fails: true, Do: func(t *f1testing.T) { t.Fail(); return }},
@@ -107,10 +110,19 @@ func TestProp_ContainedAndClassified(t *testing.T) {
 		failThenPassSameHandle := 0
 		var invocations atomic.Uint64
 		helper := rapid.IntRange(0, 5).Draw(rt, "inHelperGoroutine") == 0
-		scenario := func(*f1testing.T) f1testing.RunFn {
+		// rarely, one iteration marks the SETUP handle failed (the usual shadowing slip: `t` of the
+		// enclosing function instead of the iteration's): every iteration is still reported by its own outcome
+		failSetupAt := uint64(0)
+		if rapid.IntRange(0, 5).Draw(rt, "failSetupHandle") == 0 {
+			failSetupAt = uint64(rapid.IntRange(1, 3).Draw(rt, "failSetupHandleAt"))
+		}
+		scenario := func(st *f1testing.T) f1testing.RunFn {
 			return func(it *f1testing.T) {
 				invocations.Add(1)
 				id, _ := strconv.ParseUint(it.Iteration, 10, 64)
+				if id == failSetupAt {
+					st.Errorf("planned failure on the setup handle from iteration %d", id)
+				}
 				b := planOf(id)
 				mu.Lock()
 				seen[id]++
@@ -183,7 +195,7 @@ func TestProp_ContainedAndClassified(t *testing.T) {
 			names[i] = behaviours[p].Name
 			nonString = nonString || behaviours[p].NonStringPanic
 		}
-		desc := fmt.Sprintf("%s c=%d N=%d plan=%v flags=%v log-to=%s helper-goroutine=%v", mode, conc, n, names, flags, logTo, helper)
+		desc := fmt.Sprintf("%s c=%d N=%d plan=%v flags=%v log-to=%s helper-goroutine=%v fail-setup-handle-at=%d", mode, conc, n, names, flags, logTo, helper, failSetupAt)
 
 		var wantPass, wantFail uint64
 		mu.Lock()
@@ -205,6 +217,9 @@ func TestProp_ContainedAndClassified(t *testing.T) {
 		cls := []string{"mode-" + mode, "log-to-" + logTo}
 		if helper {
 			cls = append(cls, "behaviours-in-a-helper-goroutine-under-CheckResults")
+		}
+		if failSetupAt != 0 {
+			cls = append(cls, "setup-handle-failed-from-an-iteration")
 		}
 		if ftp > 0 {
 			cls = append(cls, "fail-then-pass-on-same-handle")
